@@ -1,3 +1,6 @@
 import SJ.Props.C09
 #print axioms SJ.Props.C09.c09_slice_reader
 #print axioms SJ.Props.C09.c09_str_slice_ignored
+#print axioms SJ.Props.C09.c09_str_slice_value
+#print axioms SJ.Props.C09.c09_str_slice
+#print axioms SJ.Props.C09.c09_all_sources
